@@ -54,3 +54,83 @@ def effect_sites(ix: Any) -> list[Effect]:
 def _pathish(e: ast.expr) -> bool:
     txt = ast.unparse(e)
     return any(t in txt for t in ("path", "dir", "Path", "file"))
+
+
+# ---- following effects through expressions and helpers ---------------------------------------------------------------------------
+def operand_av(it: Any, node: ast.expr | None) -> Any:
+    """Abstract value of an effect's path operand. The interpreter records values of names, attributes, calls and subscripts; an
+    operand written in place (`(d / "x.py").write_text(...)`, an f-string component) is composed from its recorded parts with the
+    interpreter's own transfer functions for `/` and f-strings, so that naming the path in a local first or not makes no difference."""
+    from dataclasses import replace
+
+    from ..domain import concat, lit
+
+    if node is None:
+        return None
+    got = it.node_av.get(id(node))
+    if got is not None:
+        return got
+    if isinstance(node, ast.Constant) and isinstance(node.value, str):
+        return lit(node.value)
+    if isinstance(node, ast.JoinedStr):
+        vals, descs = [], []
+        for v in node.values:
+            if isinstance(v, ast.Constant):
+                vals.append(lit(str(v.value)))
+                descs.append("")
+            elif isinstance(v, ast.FormattedValue):
+                x = operand_av(it, v.value)
+                if x is None:
+                    return None
+                vals.append(it.repr_of(x) if v.conversion == ord("r") else it.str_of(x))
+                descs.append(ast.unparse(v.value))
+        return concat(vals, descs, f"?:{getattr(node, 'lineno', 0)}")
+    if isinstance(node, ast.BinOp) and isinstance(node.op, ast.Div):
+        l, r = operand_av(it, node.left), operand_av(it, node.right)
+        if l is None or r is None or "Path" not in l.types:
+            return None
+        return replace(concat([replace(l, types=frozenset({"str"})), lit("/"), it.str_of(r)],
+                              [ast.unparse(node.left), "", ast.unparse(node.right)], f"?:{getattr(node, 'lineno', 0)}"),
+                       types=frozenset({"Path"}))
+    return None
+
+
+def callee_of(ix: Any, f: FuncInfo, c: ast.Call) -> FuncInfo | None:
+    """the function of the package that a call made inside f runs: `self.m()` / `cls.m()` / `OwnClass.m()` or a plain module function"""
+    cn = call_name(c)
+    head, _, last = cn.rpartition(".")
+    if not head:
+        r = ix.resolve(f.module, cn)
+        return r[1] if r and r[0] == "func" else None
+    if f.cls is not None and (head in ("self", "cls") or head == f.cls.name):
+        return ix.find_method(f.cls, last)
+    r = ix.resolve(f.module, cn)
+    return r[1] if r and r[0] == "func" else None
+
+
+def performing(ix: Any, f: FuncInfo, hit: Any, cfgs: dict, must: bool = False, depth: int = 3,
+               _seen: tuple[str, ...] = ()) -> list[ast.stmt]:
+    """Statements of f (CFG nodes) at which a call satisfying `hit` happens: the statement makes the call itself, or calls a function of
+    the package in which it happens (must=True: on every path through that function; otherwise on some path), transitively.
+    A path question about f ("is every write preceded by the removal") is thereby indifferent to whether a step is written in place
+    or extracted into a helper."""
+    from ..astutil import cfg_of
+    from ..cfg import ENTRY, EXIT, walk_own
+
+    out: list[ast.stmt] = []
+    for st in cfg_of(f, cfgs).stmts():
+        calls = [n for n in walk_own(st) if isinstance(n, ast.Call)]
+        if any(hit(n) for n in calls):
+            out.append(st)
+            continue
+        if depth <= 0:
+            continue
+        for n in calls:
+            g = callee_of(ix, f, n)
+            if g is None or g == f or g.qual in _seen:
+                continue
+            inner = performing(ix, g, hit, cfgs, must, depth - 1, (*_seen, f.qual))
+            if inner and (not must or cfg_of(g, cfgs).every_path_passes(ENTRY, EXIT, lambda x: any(x is s for s in inner))):
+                out.append(st)
+                break
+    return out
